@@ -235,7 +235,10 @@ func applyMutation(rng *vk.Rand, m proto.Message, kind string, o vk.GenOpts) (cl
 			}
 		}
 		cur := holder.GetUnknown()
-		switch op := rng.Intn(4); {
+		switch op := rng.Intn(6); {
+		case op >= 4:
+			// same field numbers, same lengths, one occurrence (often not the last of its number) carries another value
+			holder.SetUnknown(retouchUnknown(rng, cur))
 		case len(cur) == 0 || op == 0:
 			holder.SetUnknown(genUnknown(rng))
 		case op == 1:
@@ -294,6 +297,19 @@ func genUnknown(rng *vk.Rand) pref.RawFields {
 		b = append(b, unknownPool[rng.Intn(len(unknownPool))]...)
 	}
 	return b
+}
+
+// retouchUnknown gives the message two or three occurrences of one unknown field number and changes the value of
+// one of them (same wire length), keeping everything else.
+func retouchUnknown(rng *vk.Rand, b pref.RawFields) pref.RawFields {
+	num := protowire.Number(1000 + rng.Intn(2))
+	vals := []uint64{0, 1, 7}
+	n := rng.Range(2, 3)
+	out := append(pref.RawFields{}, b...)
+	for i := 0; i < n; i++ {
+		out = append(out, protowire.AppendVarint(protowire.AppendTag(nil, num, protowire.VarintType), vals[rng.Intn(len(vals))])...)
+	}
+	return out
 }
 
 // permuteUnknown reorders the individual unknown fields (same multiset of fields, other order).
